@@ -3,6 +3,7 @@ package c20
 import (
 	"context"
 	"fmt"
+	"io"
 	"sort"
 	"strconv"
 	"strings"
@@ -60,21 +61,38 @@ type runOut struct {
 	Val   string
 	Err   bool
 	Panic bool
-	Msg   string // error / panic text: diagnostics only, never compared
+	Intr  string // interrupt info of an interrupted Invoke ("" = no interrupt)
+	// the same input through Stream: the received chunks (sorted: chunks of concurrently
+	// running nodes arrive in scheduling order), error-ness, panic, interrupt info
+	SVal   string
+	SErr   bool
+	SPanic bool
+	SIntr  string
+	Msg    string // error / panic texts: diagnostics only, never compared
 }
 
 func (a runOut) same(b runOut) bool {
-	return a.Val == b.Val && a.Err == b.Err && a.Panic == b.Panic
+	return a.Val == b.Val && a.Err == b.Err && a.Panic == b.Panic && a.Intr == b.Intr &&
+		a.SVal == b.SVal && a.SErr == b.SErr && a.SPanic == b.SPanic && a.SIntr == b.SIntr
 }
 
 func (a runOut) String() string {
-	switch {
-	case a.Panic:
-		return "PANIC(" + a.Msg + ")"
-	case a.Err:
-		return "ERROR(" + a.Msg + ")"
+	one := func(val string, err, pan bool, intr string) string {
+		switch {
+		case pan:
+			return "PANIC"
+		case intr != "":
+			return "INTERRUPT(" + intr + ")"
+		case err:
+			return "ERROR"
+		}
+		return strconv.Quote(val)
 	}
-	return strconv.Quote(a.Val)
+	s := "Invoke=" + one(a.Val, a.Err, a.Panic, a.Intr) + " Stream=" + one(a.SVal, a.SErr, a.SPanic, a.SIntr)
+	if a.Msg != "" {
+		s += " [" + a.Msg + "]"
+	}
+	return s
 }
 
 type instance interface {
@@ -82,19 +100,73 @@ type instance interface {
 	last() runFn // runnable produced by the most recent successful Compile
 }
 
+// interruptText renders which nodes an interrupt error names (recursively for nested graphs).
+func interruptText(err error) string {
+	info, ok := compose.ExtractInterruptInfo(err)
+	if !ok {
+		return ""
+	}
+	var render func(i *compose.InterruptInfo) string
+	render = func(i *compose.InterruptInfo) string {
+		if i == nil {
+			return "nil"
+		}
+		s := fmt.Sprintf("before=%v after=%v rerun=%v", sortedCopy(i.BeforeNodes), sortedCopy(i.AfterNodes), sortedCopy(i.RerunNodes))
+		for _, k := range mon.SortedKeys(i.SubGraphs) {
+			s += " sub[" + k + "]{" + render(i.SubGraphs[k]) + "}"
+		}
+		return s
+	}
+	return render(info)
+}
+
+// wrapRunnable runs an input through Invoke and through Stream.
 func wrapRunnable(r compose.Runnable[string, string]) runFn {
 	return func(in string) runOut {
 		var out runOut
 		p := mon.Safe(func() {
 			v, err := r.Invoke(context.Background(), in)
 			if err != nil {
-				out.Err, out.Msg = true, firstLine(err.Error())
+				out.Err, out.Msg, out.Intr = true, "invoke: "+firstLine(err.Error()), interruptText(err)
 				return
 			}
 			out.Val = v
 		})
 		if p != nil {
-			out = runOut{Panic: true, Msg: firstLine(p.Value)}
+			out.Val, out.Err, out.Intr = "", false, ""
+			out.Panic, out.Msg = true, "invoke: "+firstLine(p.Value)
+		}
+		var chunks []string
+		var serr error
+		p = mon.Safe(func() {
+			sr, err := r.Stream(context.Background(), in)
+			if err != nil {
+				serr = err
+				return
+			}
+			defer sr.Close()
+			for {
+				c, err := sr.Recv()
+				if err == io.EOF {
+					return
+				}
+				if err != nil {
+					serr = err
+					return
+				}
+				chunks = append(chunks, c)
+			}
+		})
+		switch {
+		case p != nil:
+			out.SPanic = true
+			out.Msg += " stream: " + firstLine(p.Value)
+		case serr != nil:
+			out.SErr, out.SIntr = true, interruptText(serr)
+			out.Msg += " stream: " + firstLine(serr.Error())
+		default:
+			sort.Strings(chunks)
+			out.SVal = strings.Join(chunks, "\x00")
 		}
 		return out
 	}
